@@ -13,10 +13,12 @@ LABELS = ("c05.", "c17.response_failing_cookie_checks_delivered")
 def run(ctx):
     # server cookie behaviours x source-address changes (cookie-less and wrong-cookie replies from a supporting server)
     ck = {"module": "Gen_C17.tla", "cfg": "Gen_C17_accept.cfg", "name": "cookie"}
+    # requests that differ only in type or class, with the query cache on (what may be replayed to whom)
+    types = {"module": "Gen_C08.tla", "cfg": "Gen_C08_types.cfg", "name": "types"}
     batch = {"module": "GenBatch.tla", "cfg": "GenBatch.cfg", "name": "batch"}
     if ctx.quick:
-        gens = [{"module": "Gen_C05.tla", "cfg": "Gen_C05_quick.cfg", "name": "bfs"}, ck, batch]
+        gens = [{"module": "Gen_C05.tla", "cfg": "Gen_C05_quick.cfg", "name": "bfs"}, ck, batch, types]
     else:
         gens = [{"module": "Gen_C05.tla", "cfg": "Gen_C05_thorough.cfg", "name": "bfs"},
-                {"module": "Gen_C05.tla", "cfg": "Gen_C05_sim.cfg", "name": "sim", "simulate": 2000, "depth": 14}, ck, batch]
+                {"module": "Gen_C05.tla", "cfg": "Gen_C05_sim.cfg", "name": "sim", "simulate": 2000, "depth": 14}, ck, batch, types]
     simlib.engine_check(ctx, gens, FACETS, labels=LABELS, selftests=mutators.ACCEPT)
